@@ -168,6 +168,22 @@ def run(rep, tier, seed):
                     rep.incomplete(tag, 'bounded-shape-safety', site, msg)
                 else:
                     rep.ok(tag, 'bounded-shape-safety', site, 'no memory-safety sink (functional mismatch is reported by C03-C05)')
+    # two-thread world: code that asks for its thread number / team size is also executed as thread 1 of a team of two (upper
+    # half of every static loop; possible for every region that does not pin its team to one thread: the team a region gets is
+    # never the program's choice).  Only out-of-bounds sinks count there - results and initialisation state are those of a
+    # partial execution.  The pinned tree never asks for its thread number, so the pass is empty on it (census below).
+    import re as _re
+    ntid = len(_re.findall(r'call[^\n]*@omp_get_(?:thread_num|num_threads)\(', open(front.ir_path('avx2', True, True)).read()))
+    n2 = 0
+    if ntid:
+        for kind, cfgs, desc in (('ntt', ncfg, nttcheck.describe_ntt), ('intt', ncfg, nttcheck.describe_ntt), ('ext', ecfg, nttcheck.describe_ext)):
+            for c, r in nttcheck.run_parallel(kind, cfgs, omp=True, opts={'omp_world': 'upper2'}):
+                n2 += 1
+                if r is not None and r[0] == 'refuted' and r[1].startswith('oob:'):
+                    loc = r[2]
+                    site = '%s:%s' % (front.rel(loc[0]), loc[1]) if loc and loc[0] else 'src/ntt_goldilocks.cpp'
+                    rep.refute('two-thread:%s %s' % (kind, desc(c)), 'bounded-shape-safety', site, 'as thread 1 of a team of two (upper half of each static loop): ' + r[1])
+    rep.ok('two-thread:census', 'bounded-shape-safety', 'src', '%d call sites of omp_get_thread_num / omp_get_num_threads; %d transform configurations re-run as thread 1 of a team of two (out-of-bounds sinks only)' % (ntid, n2))
     for cfg in ('avx2', 'avx512'):
         mod = front.module(cfg)
         for variant, two in c07.VARIANTS:
